@@ -148,3 +148,13 @@ chk("C04", "exploration",
     "x86_64 SysV host only (cross-target mangling is not executed); noreturn functions and C++ methods are not called.",
     "runtime monitoring: differential call/return/global observation across the FFI boundary",
     "DESIGN.md §4 C04")
+
+chk("C16", "exploration",
+    "Generated headers of static / static inline functions (bodies print what they receive and return orchestrator-fixed values) over "
+    "scalars, _Bool, typedefs, enums, pointers, array parameters, by-value aggregates, callbacks; default and custom suffix and wrapper "
+    "paths; variadic statics must get neither binding nor wrapper; a list of hostile declarators. The emitted wrapper is compiled by clang "
+    "with the same flags, `llvm-nm` defined externals must equal {name+suffix} of the bound statics, link names must point at the "
+    "wrappers, and one executable runs each function once directly from C and once through the Rust binding; both logs must be equal.",
+    "x86_64 host, clang 14; C++ mode only through its recorded finding.",
+    "runtime monitoring: compile + symbol-set oracle and differential direct-vs-binding execution logs",
+    "DESIGN.md §4 C16")
